@@ -63,10 +63,10 @@ def rwCfg : RWCfg := StepModel.Generated.rwCfg
 def showCfg : String :=
   let b (x : Bool) := if x then "1" else "0"
   s!"cfg stringNodeAppends={b rwCfg.stringNodeAppends} criSkipsComments={b lexCfg.criSkipsComments} " ++
-  s!"aggrSkipsComments={b rwCfg.aggrSkipsComments} complexMergesParts={b rwCfg.complexMergesParts} " ++
+  s!"aggrSkipsComments={b rwCfg.aggrSkipsComments} complexMergesParts={b rwCfg.complexMergesParts} complexMergesAttrErrors={b rwCfg.complexMergesAttrErrors} " ++
   s!"complexPartStrict={match rwCfg.complexPartStrict with | none => "fwd" | some x => b x} " ++
   s!"recoveryKeepsSemicolon={b rwCfg.recoveryKeepsSemicolon} complexReportsError={b rwCfg.complexReportsError} " ++
-  s!"skipInstanceSkipsComments={b rwCfg.skipInstanceSkipsComments} missingSemicolonReported={b rwCfg.missingSemicolonReported} fillerOnlyForDollar={b rwCfg.fillerOnlyForDollar} errorResyncsFromStart={b rwCfg.errorResyncsFromStart} numberElemReadsNumber={b rwCfg.numberElemReadsNumber} aggrReportsMissingElement={b rwCfg.aggrReportsMissingElement} pcdEatsNextChar={b StepModel.Generated.pcdEatsNextChar} " ++
+  s!"skipInstanceSkipsComments={b rwCfg.skipInstanceSkipsComments} missingSemicolonReported={b rwCfg.missingSemicolonReported} fillerOnlyForDollar={b rwCfg.fillerOnlyForDollar} fillerKeepsError={b rwCfg.fillerKeepsError} errorResyncsFromStart={b rwCfg.errorResyncsFromStart} numberElemReadsNumber={b rwCfg.numberElemReadsNumber} aggrReportsMissingElement={b rwCfg.aggrReportsMissingElement} pcdEatsNextChar={b StepModel.Generated.pcdEatsNextChar} " ++
   s!"intReportsFail={b lexCfg.intReportsFail} realReportsFail={b lexCfg.realReportsFail} " ++
   s!"numberReportsFail={b lexCfg.numberReportsFail} logicalRejectsUnset={b lexCfg.logicalRejectsUnset} " ++
   s!"binaryRejectsEmpty={b lexCfg.binaryRejectsEmpty} dollarKeepsError={b lexCfg.dollarKeepsError}"
